@@ -75,15 +75,17 @@ def impl_case(case):
                                      + traceback.format_exc(limit=3)[-300:]))
 
     def run_op(o):
-        trk.before(o)
+        # the monitors see a line delivered as bytes as the text line the reader's decoder makes of it
+        mo = ("recv", bytes(o[1]).decode("utf-8", "replace")) if o[0] == "recvb" else o
+        trk.before(mo)
         for m in mons:
-            guarded(m, "before", im, o, trk)
+            guarded(m, "before", im, mo, trk)
         start = len(im.log)
         out = im.op(o)
         events = im.log[start:]
         for m in mons:
-            guarded(m, "after", im, o, events, trk)
-        trk.after(o)
+            guarded(m, "after", im, mo, events, trk)
+        trk.after(mo)
         return out
 
     for o in case["ops"]:
@@ -148,6 +150,8 @@ def impl_case(case):
         outs.append(run_op(o))
     for m in mons:
         m.end(im, trk)
+    if case["cfg"].get("persist_cwd"):
+        os.chdir(str(core.VERIF))        # the case's working directory is removed afterwards
     viol = [(m.name, k, w) for m in mons for (k, w) in m.violations]
     stats = {}
     if im.failed_saves:
